@@ -2,6 +2,8 @@
 # usage: tools/seedrun.sh <patch-file> <ID> [<ID>...]
 # Applies a seeded change to a scratch worktree of /repo HEAD (never to /repo) and runs the quick checks against it.
 P="$1"; shift
+# one at a time: two runs of the same check would overwrite each other's replay and evidence files
+exec 9>/tmp/verif-seedrun.lock; flock 9
 WT=/tmp/wt/seedrun-$$
 git -C /repo worktree add -q --detach "$WT" HEAD || exit 2
 if ! git -C "$WT" apply "$P" 2>/dev/null; then
